@@ -92,8 +92,16 @@ def run(tier, seed):
                        (f"((lambda (a b) (list (= a b) (= b a))) ({mk} {n}) ({mk} {n + 1}))", "(() ())"),
                        (f"((lambda (a) (= a a)) (range {n}))", "t")]
     deep_cases += [("(block (defun at-depth (k x) \"\" (if (= k 0) (= x x) (car (list (at-depth (substract k 1) x))))) (list (at-depth 300 '((1 (2 (3 (4)))) 5)) (at-depth 500 '((1 (2 (3 (4)))) 5))))", "(t t)")]
+    # symbols are compared by identity: a generated symbol is not = to the interned symbol spelled like its printed form, at any position
+    deep_cases += [("((lambda (g) (= g (read-simple (print g)))) (gensym))", "()"),
+                   ("((lambda (g) (list (= g g) (= (list 1 g) (list 1 (read-simple (print g)))) (= (list g) (list g)))) (gensym))", "(t () t)"),
+                   ("((lambda (g h) (list (= g h) (= (print g) (print h)))) (gensym) (gensym))", None),
+                   ("((lambda (g) (= (cons 1 g) (cons 1 (read-simple (print g))))) (gensym))", "()"),
+                   ("(= 'abc (read-simple \"abc\"))", "t")]
     da = run_driver_cases(evalcorr_lines([f"(print {p})" for p, _ in deep_cases]), timeout=120.0)
     for (p, want), a in zip(deep_cases, da):
+        if want is None:
+            continue
         rr = dump.split_run_answer(a)
         got = None
         if "results" in rr and rr["results"] and rr["results"][-1][0] == "ok":
